@@ -221,6 +221,13 @@ def rule_wrappers(ctx):
         do = K.call_arg_origins(s, 1)
         ctx.ob("wrapper-forwards-deadline|%s" % fn, bool(do) and all(o[0] == "arg" for o in do),
                "the deadline handed to schedule*_from is the caller's deadline argument, unmodified (%s)" % K.describe_origin(do), [s])
+        # a repetition period travels unchanged as well
+        for i, a in enumerate(s.args()):
+            if a.get("k") in ("copy", "move") and not a["pl"]["p"] and b.locals[a["pl"]["l"]]["ty"] == "std::time::Duration":
+                po = b.origins(a, s)
+                okp = bool(po) and all(o[0] == "arg" and b.locals[o[1]]["ty"] == "std::time::Duration" for o in po)
+                ctx.ob("wrapper-forwards-period|%s" % fn, okp,
+                       "the period handed to schedule*_from is the caller's period argument, unmodified (%s)" % K.describe_origin(po), [s])
         ras = K.ret_assigns(b)
         ok = bool(ras)
         for r in ras:
